@@ -109,7 +109,7 @@ def kf_zone_in_meta(case) -> bool:
 
 
 CLASSES = {"kf_zone_in_meta": kf_zone_in_meta, "kf_zone_in_list": kf_zone_in_list, "kf_body_node_keyed_meta": kf_body_node_keyed_meta, "kf_nested_inline_map": kf_nested_inline_map,
-           "kf_nonfinite_number": kf_nonfinite_number, "kf_frontmatter_with_sentinel": kf_frontmatter_with_sentinel,
+           "kf_frontmatter_with_sentinel": kf_frontmatter_with_sentinel,
            "kf_holographic": kf_holographic}
 
 
